@@ -178,7 +178,7 @@ var checks = []Check{
 		Quick:      tierCfg{budget: 150, maxRuns: 1500, shrink: 20},
 		Thorough:   tierCfg{budget: 900, shrink: 60},
 		MaxWorkers: 6, RunTimeoutS: 120,
-		Rule:         "one evaluation = one real fuzz-protocol session (SetState with a generated genesis export and ancestry, ImportBlock with 1-3 author-built blocks incl. tickets/preimages/disputes, GetState, State, StateRoot, PeerInfo, Error) whose frames are damaged in flight 6-15 times (bit flips, byte insert/delete, length-prefix edits to 0/1/2/2^31/2^32-1/+1000, truncation + close, garbage frame, unknown message type, 0xFF runs over inner length prefixes) and delivered in tape-chosen fragments to the real stream reader Message.ReadFrom; non-trivial = session of >= 6 frames; distinct = decision tape hash",
+		Rule:         "one evaluation = one real fuzz-protocol session (SetState with a generated genesis export and ancestry, ImportBlock with 1-3 author-built blocks incl. tickets/preimages/disputes, GetState, State, StateRoot, PeerInfo, Error) whose frames are damaged in flight 6-15 times (bit flips, byte insert/delete, length-prefix edits to 0/1/2/2^31/2^32-1/+1000, truncation + close, garbage frame, unknown message type, 0xFF runs over inner length prefixes, union tags / option flags / boolean octets at offsets found by differential encoding set to 0..17 and the extremes) and delivered in tape-chosen fragments to the real stream reader Message.ReadFrom; non-trivial = session of >= 6 frames; distinct = decision tape hash",
 		Real:         []string{"internal/fuzz Message.ReadFrom and every UnmarshalBinary behind it (PeerInfo, SetState, ImportBlock, GetState, State, StateRoot, ErrorMessage)", "internal/types decoder for blocks, headers, extrinsics, state key-values, ancestry", "the node (SetState/ImportBlock/GetState) to produce the real session"},
 		Stub:         []string{"the connection = in-memory fragmenting reader (harness)", vrfStub},
 		Assumptions:  []string{"PARTIAL: only the types that travel on the fuzz-protocol wire are reached (no bare work packages); no coverage guidance - this is seeded stream-fault injection on real session traffic, not a fuzzer", "allocation is measured as the growth of runtime.MemStats.TotalAlloc across one ReadFrom call; bound 1024 x delivered bytes + 1 MiB (1024 covers the largest in-memory element per input octet on this wire: a decoder may size a sequence by its length prefix once that prefix is known not to exceed the remaining input)"},
@@ -186,17 +186,17 @@ var checks = []Check{
 		LevelNote:    "the process runs without a hard memory limit; hostile length prefixes are detected through the allocation counter, the pages are never touched",
 		Technique:    "deterministic simulation of the fuzz-protocol transport: seeded corruption / truncation / fragmentation of real session frames, panic and allocation oracles, tape shrinking + fresh-process replay",
 		DesignRef:    "DESIGN.md §4 H4 (transport faults), §5 C14",
-		ExpectProbes: []string{"fault:stream_bit-flip", "fault:stream_length-prefix-edit", "fault:stream_truncate-and-close", "fault:stream_garbage-frame", "fault:stream_unknown-message-type", "fault:stream_inner-length-edit", "fault:stream_byte-set", "fault:stream_payload-cut-length-fixed", "fault:stream_fragmented_delivery", "probe:damaged_frame_rejected_with_error", "probe:damaged_frame_still_decodes"},
+		ExpectProbes: []string{"fault:stream_bit-flip", "fault:stream_length-prefix-edit", "fault:stream_truncate-and-close", "fault:stream_garbage-frame", "fault:stream_unknown-message-type", "fault:stream_inner-length-edit", "fault:stream_byte-set", "fault:stream_discriminator-sweep", "fault:stream_discriminator_at_known_offset", "fault:stream_payload-cut-length-fixed", "fault:stream_fragmented_delivery", "probe:damaged_frame_rejected_with_error", "probe:damaged_frame_still_decodes"},
 	},
 	{
 		Property: "C26", Harness: "h4chain", Level: "exploration",
 		Quick:        tierCfg{budget: 150, maxRuns: 60, shrink: 100},
 		Thorough:     tierCfg{budget: 1200, shrink: 1000},
 		RunTimeoutS:  240,
-		Rule:         "one evaluation = one generated history: synthetic tiny genesis (6 trivial-seed validators, 1-3 services with storage / stored / solicited preimages, authorizer pools with duplicates), an author-built block tree (slot gaps across epoch boundaries, tickets, preimages, disputes with real Ed25519 votes, forks), then a delivery schedule with up to 8 faults: a block mutated so that it is rejected at a chosen STF stage (header, disputes, safrole, seal/entropy, extrinsic), re-delivery of the rejected block, a child of the rejected block, a second different invalid block, restart from exported state, GetState of an unknown hash. The schedule is run twice on fresh incarnations: N2 without the blocks a clean node rejects, N1 with them; N1 must answer every valid delivery exactly like N2 (accept/reject, root, GetState) and GetState(head) must be unchanged after every rejection; the same valid sequence on two fresh nodes must give identical roots. non-trivial = at least 3 valid blocks; distinct = decision tape hash",
+		Rule:         "one evaluation = one generated history: synthetic tiny genesis (6 trivial-seed validators - in two histories of three the staging / pending / active / previous sets hold them in different orders; 1-3 services whose identifiers come from a pool of special magnitudes and octet patterns, with storage (also entries whose state key has a chosen second octet), stored / solicited preimages incl. one blob solicited by several services; authorizer pools with duplicates, in half of the histories shared between the cores), an author-built block tree (slot gaps across epoch boundaries, tickets, preimages, disputes with real Ed25519 votes, forks), then a delivery schedule with up to 8 faults: a block mutated so that it is rejected at a chosen STF stage (header, disputes, safrole, seal/entropy, extrinsic), re-delivery of the rejected block, a child of the rejected block, a second different invalid block, restart from exported state, GetState of an unknown hash. The schedule is run twice on fresh incarnations: N2 without the blocks a clean node rejects, N1 with them; N1 must answer every valid delivery exactly like N2 (accept/reject, root, GetState) and GetState(head) must be unchanged after every rejection; the same valid sequence on two fresh nodes must give identical roots. non-trivial = at least 3 valid blocks; distinct = decision tape hash",
 		Real:         []string{"internal/fuzz.FuzzServiceStub SetState / ImportBlock / GetState", "internal/stf.RunSTF with every stage (safrole, disputes, assurances, reports, accumulation, history, preimages, authorizations, statistics)", "internal/blockchain.ChainState commit / restore / prune, stores on the in-memory provider, leaf cache", "state codec (StateEncoder / StateKeyValsToState) and block codec on every delivery"},
 		Stub:         []string{vrfStub, "block author = harness code (fallback and ticket seals through the stand-in, real Ed25519 for disputes); it is not an oracle", "multi-node = sequential incarnations of the process-wide chain-state singleton separated by SetState"},
-		Assumptions:  []string{"the VRF is a stand-in: nothing about Bandersnatch is decided and ticket identifiers are stand-in outputs", "one chain state per process: the clean reference node and the node under test are sequential incarnations", "blocks come from the harness author: chains of 3-30 (thorough 60) blocks over several epochs with tickets, preimages, disputes (also against pending reports), assurances, guarantees (current and previous rotation, dependencies between packages) and the accumulation of the reports that become available by real PVM runs of small generated service programs (write, checkpoint, assign, transfer, yield)"},
+		Assumptions:  []string{"the VRF is a stand-in: nothing about Bandersnatch is decided and ticket identifiers are stand-in outputs", "one chain state per process: the clean reference node and the node under test are sequential incarnations", "blocks come from the harness author: chains of 3-30 (thorough 60) blocks over several epochs with tickets, preimages, disputes (also against pending reports), assurances, guarantees (current and previous rotation, dependencies between packages) and the accumulation of the reports that become available by real PVM runs of small generated service programs (fetch, write, checkpoint, assign, transfer, forget + solicit of one preimage that thereby runs through its whole life cycle, new - services born on chain -, yield)"},
 		LevelText:    "seeded exploration of block histories with injected rejections at every STF stage, retries, orphans and restarts; the oracle is a second incarnation of the real node that never saw the rejected blocks; evidence, not proof",
 		LevelNote:    "what \"same result\" means: accept/reject decision, returned root, GetState key-value set (error texts are logged, not compared); the observation that a node which imported other VALID branches can answer differently from a node that imported only a block's ancestry is counted as a by-product (not claimed by the property text)",
 		Technique:    "deterministic simulation of the node under seeded block histories with fault injection (invalid blocks rejected at chosen STF stages, retries, children of rejected blocks, forks, restarts from exported state), reference-node and reference-model oracles, tape shrinking + fresh-process replay",
@@ -208,10 +208,10 @@ var checks = []Check{
 		Quick:        tierCfg{budget: 150, maxRuns: 60, shrink: 100},
 		Thorough:     tierCfg{budget: 1200, shrink: 1000},
 		RunTimeoutS:  240,
-		Rule:         "one evaluation = one generated history: synthetic tiny genesis (6 trivial-seed validators, 1-3 services with storage / stored / solicited preimages, authorizer pools with duplicates), an author-built block tree (slot gaps across epoch boundaries, tickets, preimages, disputes with real Ed25519 votes, forks), every exported state (GetState after every accepted block, on fresh incarnations) is parsed back and re-serialised together with its raw entries and must give the exported key-value set; restarts: SetState with the export in a permuted key order (with or without ancestry) must return the root of the exported set and export the same set again, and the node must then continue like the node that was not restarted (C26 oracle)",
+		Rule:         "one evaluation = one generated history: synthetic tiny genesis (6 trivial-seed validators - in two histories of three the staging / pending / active / previous sets hold them in different orders; 1-3 services whose identifiers come from a pool of special magnitudes and octet patterns, with storage (also entries whose state key has a chosen second octet), stored / solicited preimages incl. one blob solicited by several services; authorizer pools with duplicates, in half of the histories shared between the cores), an author-built block tree (slot gaps across epoch boundaries, tickets, preimages, disputes with real Ed25519 votes, forks), every exported state (GetState after every accepted block, on fresh incarnations) is parsed back and re-serialised together with its raw entries and must give the exported key-value set; restarts: SetState with the export in a permuted key order (with or without ancestry) must return the root of the exported set and export the same set again, and the node must then continue like the node that was not restarted (C26 oracle)",
 		Real:         []string{"internal/fuzz.FuzzServiceStub SetState / ImportBlock / GetState", "internal/stf.RunSTF with every stage (safrole, disputes, assurances, reports, accumulation, history, preimages, authorizations, statistics)", "internal/blockchain.ChainState commit / restore / prune, stores on the in-memory provider, leaf cache", "state codec (StateEncoder / StateKeyValsToState) and block codec on every delivery"},
 		Stub:         []string{vrfStub, "block author = harness code (fallback and ticket seals through the stand-in, real Ed25519 for disputes); it is not an oracle", "multi-node = sequential incarnations of the process-wide chain-state singleton separated by SetState"},
-		Assumptions:  []string{"the VRF is a stand-in: nothing about Bandersnatch is decided and ticket identifiers are stand-in outputs", "one chain state per process: the clean reference node and the node under test are sequential incarnations", "blocks come from the harness author: chains of 3-30 (thorough 60) blocks over several epochs with tickets, preimages, disputes (also against pending reports), assurances, guarantees (current and previous rotation, dependencies between packages) and the accumulation of the reports that become available by real PVM runs of small generated service programs (write, checkpoint, assign, transfer, yield)"},
+		Assumptions:  []string{"the VRF is a stand-in: nothing about Bandersnatch is decided and ticket identifiers are stand-in outputs", "one chain state per process: the clean reference node and the node under test are sequential incarnations", "blocks come from the harness author: chains of 3-30 (thorough 60) blocks over several epochs with tickets, preimages, disputes (also against pending reports), assurances, guarantees (current and previous rotation, dependencies between packages) and the accumulation of the reports that become available by real PVM runs of small generated service programs (fetch, write, checkpoint, assign, transfer, forget + solicit of one preimage that thereby runs through its whole life cycle, new - services born on chain -, yield)"},
 		LevelText:    "seeded exploration; restart-from-export and fork-restore are the injected faults; evidence, not proof. State richness is limited to what stage-A blocks produce (services with storage, stored and solicited preimages, tickets, disputes, statistics)",
 		LevelNote:    "raw (unattributable) entries appear only if the parser leaves any; the comparison is on key-value sets",
 		Technique:    "deterministic simulation of the node under seeded block histories with fault injection (invalid blocks rejected at chosen STF stages, retries, children of rejected blocks, forks, restarts from exported state), reference-node and reference-model oracles, tape shrinking + fresh-process replay",
@@ -223,10 +223,10 @@ var checks = []Check{
 		Quick:        tierCfg{budget: 150, maxRuns: 60, shrink: 100},
 		Thorough:     tierCfg{budget: 1200, shrink: 1000},
 		RunTimeoutS:  240,
-		Rule:         "one evaluation = one generated history: synthetic tiny genesis (6 trivial-seed validators, 1-3 services with storage / stored / solicited preimages, authorizer pools with duplicates), an author-built block tree (slot gaps across epoch boundaries, tickets, preimages, disputes with real Ed25519 votes, forks), for every block a fresh node accepts, the reference ticket accumulator (lowest identifiers of carried-over and new tickets, strictly increasing, at most E, reset at an epoch change) and the reference slot-sealer sequence (unchanged within an epoch; outside-in of a full accumulator when the epoch advances by one and the prior slot index is at or after the submission end; otherwise entropy-derived fallback keys) are compared with the exported state; blocks with unsorted, duplicated, over-attempt or late tickets must be rejected by a fresh node",
+		Rule:         "one evaluation = one generated history: synthetic tiny genesis (6 trivial-seed validators - in two histories of three the staging / pending / active / previous sets hold them in different orders; 1-3 services whose identifiers come from a pool of special magnitudes and octet patterns, with storage (also entries whose state key has a chosen second octet), stored / solicited preimages incl. one blob solicited by several services; authorizer pools with duplicates, in half of the histories shared between the cores), an author-built block tree (slot gaps across epoch boundaries, tickets, preimages, disputes with real Ed25519 votes, forks), for every block a fresh node accepts, the reference ticket accumulator (lowest identifiers of carried-over and new tickets, strictly increasing, at most E, reset at an epoch change) and the reference slot-sealer sequence (unchanged within an epoch; outside-in of a full accumulator when the epoch advances by one and the prior slot index is at or after the submission end; otherwise entropy-derived fallback keys) are compared with the exported state; blocks with unsorted, duplicated, over-attempt or late tickets must be rejected by a fresh node",
 		Real:         []string{"internal/fuzz.FuzzServiceStub SetState / ImportBlock / GetState", "internal/stf.RunSTF with every stage (safrole, disputes, assurances, reports, accumulation, history, preimages, authorizations, statistics)", "internal/blockchain.ChainState commit / restore / prune, stores on the in-memory provider, leaf cache", "state codec (StateEncoder / StateKeyValsToState) and block codec on every delivery"},
 		Stub:         []string{vrfStub, "block author = harness code (fallback and ticket seals through the stand-in, real Ed25519 for disputes); it is not an oracle", "multi-node = sequential incarnations of the process-wide chain-state singleton separated by SetState"},
-		Assumptions:  []string{"the VRF is a stand-in: nothing about Bandersnatch is decided and ticket identifiers are stand-in outputs", "one chain state per process: the clean reference node and the node under test are sequential incarnations", "blocks come from the harness author: chains of 3-30 (thorough 60) blocks over several epochs with tickets, preimages, disputes (also against pending reports), assurances, guarantees (current and previous rotation, dependencies between packages) and the accumulation of the reports that become available by real PVM runs of small generated service programs (write, checkpoint, assign, transfer, yield)"},
+		Assumptions:  []string{"the VRF is a stand-in: nothing about Bandersnatch is decided and ticket identifiers are stand-in outputs", "one chain state per process: the clean reference node and the node under test are sequential incarnations", "blocks come from the harness author: chains of 3-30 (thorough 60) blocks over several epochs with tickets, preimages, disputes (also against pending reports), assurances, guarantees (current and previous rotation, dependencies between packages) and the accumulation of the reports that become available by real PVM runs of small generated service programs (fetch, write, checkpoint, assign, transfer, forget + solicit of one preimage that thereby runs through its whole life cycle, new - services born on chain -, yield)"},
 		LevelText:    "seeded exploration over multi-epoch histories with a reference model written from the property text; evidence, not proof",
 		LevelNote:    "ticket identifiers are stand-in VRF outputs; ring proofs are stand-in",
 		Technique:    "deterministic simulation of the node under seeded block histories with fault injection (invalid blocks rejected at chosen STF stages, retries, children of rejected blocks, forks, restarts from exported state), reference-node and reference-model oracles, tape shrinking + fresh-process replay",
@@ -238,10 +238,10 @@ var checks = []Check{
 		Quick:        tierCfg{budget: 150, maxRuns: 60, shrink: 100},
 		Thorough:     tierCfg{budget: 1200, shrink: 1000},
 		RunTimeoutS:  240,
-		Rule:         "one evaluation = one generated history: synthetic tiny genesis (6 trivial-seed validators, 1-3 services with storage / stored / solicited preimages, authorizer pools with duplicates), an author-built block tree (slot gaps across epoch boundaries, tickets, preimages, disputes with real Ed25519 votes, forks), for every accepted block the reference recent-history transition (previous newest entry gets the block's parent state root; new entry with header hash, zero state root, reported packages sorted by hash and the super-peak of the Keccak mountain range after appending the commitment of the block's accumulation outputs; at most H entries, oldest dropped) and the reference range peaks are compared with the exported state",
+		Rule:         "one evaluation = one generated history: synthetic tiny genesis (6 trivial-seed validators - in two histories of three the staging / pending / active / previous sets hold them in different orders; 1-3 services whose identifiers come from a pool of special magnitudes and octet patterns, with storage (also entries whose state key has a chosen second octet), stored / solicited preimages incl. one blob solicited by several services; authorizer pools with duplicates, in half of the histories shared between the cores), an author-built block tree (slot gaps across epoch boundaries, tickets, preimages, disputes with real Ed25519 votes, forks), for every accepted block the reference recent-history transition (previous newest entry gets the block's parent state root; new entry with header hash, zero state root, reported packages sorted by hash and the super-peak of the Keccak mountain range after appending the commitment of the block's accumulation outputs; at most H entries, oldest dropped) and the reference range peaks are compared with the exported state",
 		Real:         []string{"internal/fuzz.FuzzServiceStub SetState / ImportBlock / GetState", "internal/stf.RunSTF with every stage (safrole, disputes, assurances, reports, accumulation, history, preimages, authorizations, statistics)", "internal/blockchain.ChainState commit / restore / prune, stores on the in-memory provider, leaf cache", "state codec (StateEncoder / StateKeyValsToState) and block codec on every delivery"},
 		Stub:         []string{vrfStub, "block author = harness code (fallback and ticket seals through the stand-in, real Ed25519 for disputes); it is not an oracle", "multi-node = sequential incarnations of the process-wide chain-state singleton separated by SetState"},
-		Assumptions:  []string{"the VRF is a stand-in: nothing about Bandersnatch is decided and ticket identifiers are stand-in outputs", "one chain state per process: the clean reference node and the node under test are sequential incarnations", "blocks come from the harness author: chains of 3-30 (thorough 60) blocks over several epochs with tickets, preimages, disputes (also against pending reports), assurances, guarantees (current and previous rotation, dependencies between packages) and the accumulation of the reports that become available by real PVM runs of small generated service programs (write, checkpoint, assign, transfer, yield)"},
+		Assumptions:  []string{"the VRF is a stand-in: nothing about Bandersnatch is decided and ticket identifiers are stand-in outputs", "one chain state per process: the clean reference node and the node under test are sequential incarnations", "blocks come from the harness author: chains of 3-30 (thorough 60) blocks over several epochs with tickets, preimages, disputes (also against pending reports), assurances, guarantees (current and previous rotation, dependencies between packages) and the accumulation of the reports that become available by real PVM runs of small generated service programs (fetch, write, checkpoint, assign, transfer, forget + solicit of one preimage that thereby runs through its whole life cycle, new - services born on chain -, yield)"},
 		LevelText:    "seeded exploration over histories longer than H with a reference model (own MMR append / super-peak / well-balanced Merkle root); evidence, not proof. Stage A: no guarantees, accumulation outputs are empty",
 		LevelNote:    "the block header hash is the repository's (hash of the encoded header)",
 		Technique:    "deterministic simulation of the node under seeded block histories with fault injection (invalid blocks rejected at chosen STF stages, retries, children of rejected blocks, forks, restarts from exported state), reference-node and reference-model oracles, tape shrinking + fresh-process replay",
@@ -253,10 +253,10 @@ var checks = []Check{
 		Quick:        tierCfg{budget: 150, maxRuns: 60, shrink: 100},
 		Thorough:     tierCfg{budget: 1200, shrink: 1000},
 		RunTimeoutS:  240,
-		Rule:         "one evaluation = one generated history: synthetic tiny genesis (6 trivial-seed validators, 1-3 services with storage / stored / solicited preimages, authorizer pools with duplicates), an author-built block tree (slot gaps across epoch boundaries, tickets, preimages, disputes with real Ed25519 votes, forks), for every accepted block the reference validator records (author: +1 block, +tickets, +preimages, +preimage octets; assurers +1; guarantors +1; at an epoch change current becomes previous and is reset), service records (provided count/size from the preimage extrinsic) and all-zero core records when nothing is reported or available are compared with the exported state",
+		Rule:         "one evaluation = one generated history: synthetic tiny genesis (6 trivial-seed validators - in two histories of three the staging / pending / active / previous sets hold them in different orders; 1-3 services whose identifiers come from a pool of special magnitudes and octet patterns, with storage (also entries whose state key has a chosen second octet), stored / solicited preimages incl. one blob solicited by several services; authorizer pools with duplicates, in half of the histories shared between the cores), an author-built block tree (slot gaps across epoch boundaries, tickets, preimages, disputes with real Ed25519 votes, forks), for every accepted block the reference validator records (author: +1 block, +tickets, +preimages, +preimage octets; assurers +1; guarantors +1; at an epoch change current becomes previous and is reset), service records (provided count/size from the preimage extrinsic) and all-zero core records when nothing is reported or available are compared with the exported state",
 		Real:         []string{"internal/fuzz.FuzzServiceStub SetState / ImportBlock / GetState", "internal/stf.RunSTF with every stage (safrole, disputes, assurances, reports, accumulation, history, preimages, authorizations, statistics)", "internal/blockchain.ChainState commit / restore / prune, stores on the in-memory provider, leaf cache", "state codec (StateEncoder / StateKeyValsToState) and block codec on every delivery"},
 		Stub:         []string{vrfStub, "block author = harness code (fallback and ticket seals through the stand-in, real Ed25519 for disputes); it is not an oracle", "multi-node = sequential incarnations of the process-wide chain-state singleton separated by SetState"},
-		Assumptions:  []string{"the VRF is a stand-in: nothing about Bandersnatch is decided and ticket identifiers are stand-in outputs", "one chain state per process: the clean reference node and the node under test are sequential incarnations", "blocks come from the harness author: chains of 3-30 (thorough 60) blocks over several epochs with tickets, preimages, disputes (also against pending reports), assurances, guarantees (current and previous rotation, dependencies between packages) and the accumulation of the reports that become available by real PVM runs of small generated service programs (write, checkpoint, assign, transfer, yield)"},
+		Assumptions:  []string{"the VRF is a stand-in: nothing about Bandersnatch is decided and ticket identifiers are stand-in outputs", "one chain state per process: the clean reference node and the node under test are sequential incarnations", "blocks come from the harness author: chains of 3-30 (thorough 60) blocks over several epochs with tickets, preimages, disputes (also against pending reports), assurances, guarantees (current and previous rotation, dependencies between packages) and the accumulation of the reports that become available by real PVM runs of small generated service programs (fetch, write, checkpoint, assign, transfer, forget + solicit of one preimage that thereby runs through its whole life cycle, new - services born on chain -, yield)"},
 		LevelText:    "seeded exploration across epoch boundaries with a reference model; evidence, not proof. Stage A: guarantor / assurer / core / refinement / accumulation parts are exercised only with empty inputs",
 		LevelNote:    "",
 		Technique:    "deterministic simulation of the node under seeded block histories with fault injection (invalid blocks rejected at chosen STF stages, retries, children of rejected blocks, forks, restarts from exported state), reference-node and reference-model oracles, tape shrinking + fresh-process replay",
@@ -268,10 +268,10 @@ var checks = []Check{
 		Quick:        tierCfg{budget: 150, maxRuns: 60, shrink: 100},
 		Thorough:     tierCfg{budget: 1200, shrink: 1000},
 		RunTimeoutS:  240,
-		Rule:         "one evaluation = one generated history: synthetic tiny genesis (6 trivial-seed validators, 1-3 services with storage / stored / solicited preimages, authorizer pools with duplicates), an author-built block tree (slot gaps across epoch boundaries, tickets, preimages, disputes with real Ed25519 votes, forks), dispute extrinsics carry verdicts of the three defined outcomes (2/3+1, 0, 1/3 positive votes) with real Ed25519 votes by current or previous-epoch validators and the culprits / faults they require; for every accepted block the reference judgement sets (pairwise disjoint, sorted, grown by exactly the new verdicts) and offender set (sorted, only growing) are compared with the exported state; a verdict with any other vote count must be rejected by a fresh node",
+		Rule:         "one evaluation = one generated history: synthetic tiny genesis (6 trivial-seed validators - in two histories of three the staging / pending / active / previous sets hold them in different orders; 1-3 services whose identifiers come from a pool of special magnitudes and octet patterns, with storage (also entries whose state key has a chosen second octet), stored / solicited preimages incl. one blob solicited by several services; authorizer pools with duplicates, in half of the histories shared between the cores), an author-built block tree (slot gaps across epoch boundaries, tickets, preimages, disputes with real Ed25519 votes, forks), dispute extrinsics carry verdicts of the three defined outcomes (2/3+1, 0, 1/3 positive votes) with real Ed25519 votes by current or previous-epoch validators and the culprits / faults they require; for every accepted block the reference judgement sets (pairwise disjoint, sorted, grown by exactly the new verdicts) and offender set (sorted, only growing) are compared with the exported state; a verdict with any other vote count must be rejected by a fresh node",
 		Real:         []string{"internal/fuzz.FuzzServiceStub SetState / ImportBlock / GetState", "internal/stf.RunSTF with every stage (safrole, disputes, assurances, reports, accumulation, history, preimages, authorizations, statistics)", "internal/blockchain.ChainState commit / restore / prune, stores on the in-memory provider, leaf cache", "state codec (StateEncoder / StateKeyValsToState) and block codec on every delivery"},
 		Stub:         []string{vrfStub, "block author = harness code (fallback and ticket seals through the stand-in, real Ed25519 for disputes); it is not an oracle", "multi-node = sequential incarnations of the process-wide chain-state singleton separated by SetState"},
-		Assumptions:  []string{"the VRF is a stand-in: nothing about Bandersnatch is decided and ticket identifiers are stand-in outputs", "one chain state per process: the clean reference node and the node under test are sequential incarnations", "blocks come from the harness author: chains of 3-30 (thorough 60) blocks over several epochs with tickets, preimages, disputes (also against pending reports), assurances, guarantees (current and previous rotation, dependencies between packages) and the accumulation of the reports that become available by real PVM runs of small generated service programs (write, checkpoint, assign, transfer, yield)"},
+		Assumptions:  []string{"the VRF is a stand-in: nothing about Bandersnatch is decided and ticket identifiers are stand-in outputs", "one chain state per process: the clean reference node and the node under test are sequential incarnations", "blocks come from the harness author: chains of 3-30 (thorough 60) blocks over several epochs with tickets, preimages, disputes (also against pending reports), assurances, guarantees (current and previous rotation, dependencies between packages) and the accumulation of the reports that become available by real PVM runs of small generated service programs (fetch, write, checkpoint, assign, transfer, forget + solicit of one preimage that thereby runs through its whole life cycle, new - services born on chain -, yield)"},
 		LevelText:    "seeded exploration with a reference model; evidence, not proof. Stage A: no pending reports, so the 'removed from pending availability' clause is only checked vacuously",
 		LevelNote:    "at most two offenders per history so that enough keyed validators remain to author blocks",
 		Technique:    "deterministic simulation of the node under seeded block histories with fault injection (invalid blocks rejected at chosen STF stages, retries, children of rejected blocks, forks, restarts from exported state), reference-node and reference-model oracles, tape shrinking + fresh-process replay",
@@ -283,10 +283,10 @@ var checks = []Check{
 		Quick:        tierCfg{budget: 150, maxRuns: 60, shrink: 100},
 		Thorough:     tierCfg{budget: 1200, shrink: 1000},
 		RunTimeoutS:  240,
-		Rule:         "one evaluation = one generated history: synthetic tiny genesis (6 trivial-seed validators, 1-3 services with storage / stored / solicited preimages, authorizer pools with duplicates), an author-built block tree (slot gaps across epoch boundaries, tickets, preimages, disputes with real Ed25519 votes, forks), preimage extrinsics provide solicited-but-unprovided blobs; blocks with unsorted, duplicated, unsolicited or already-provided entries must be rejected by a fresh node; every accepted preimage must be stored with the block's slot as the single start of its availability",
+		Rule:         "one evaluation = one generated history: synthetic tiny genesis (6 trivial-seed validators - in two histories of three the staging / pending / active / previous sets hold them in different orders; 1-3 services whose identifiers come from a pool of special magnitudes and octet patterns, with storage (also entries whose state key has a chosen second octet), stored / solicited preimages incl. one blob solicited by several services; authorizer pools with duplicates, in half of the histories shared between the cores), an author-built block tree (slot gaps across epoch boundaries, tickets, preimages, disputes with real Ed25519 votes, forks), preimage extrinsics provide solicited-but-unprovided blobs; blocks with unsorted, duplicated, unsolicited or already-provided entries must be rejected by a fresh node; every accepted preimage must be stored with the block's slot as the single start of its availability",
 		Real:         []string{"internal/fuzz.FuzzServiceStub SetState / ImportBlock / GetState", "internal/stf.RunSTF with every stage (safrole, disputes, assurances, reports, accumulation, history, preimages, authorizations, statistics)", "internal/blockchain.ChainState commit / restore / prune, stores on the in-memory provider, leaf cache", "state codec (StateEncoder / StateKeyValsToState) and block codec on every delivery"},
 		Stub:         []string{vrfStub, "block author = harness code (fallback and ticket seals through the stand-in, real Ed25519 for disputes); it is not an oracle", "multi-node = sequential incarnations of the process-wide chain-state singleton separated by SetState"},
-		Assumptions:  []string{"the VRF is a stand-in: nothing about Bandersnatch is decided and ticket identifiers are stand-in outputs", "one chain state per process: the clean reference node and the node under test are sequential incarnations", "blocks come from the harness author: chains of 3-30 (thorough 60) blocks over several epochs with tickets, preimages, disputes (also against pending reports), assurances, guarantees (current and previous rotation, dependencies between packages) and the accumulation of the reports that become available by real PVM runs of small generated service programs (write, checkpoint, assign, transfer, yield)"},
+		Assumptions:  []string{"the VRF is a stand-in: nothing about Bandersnatch is decided and ticket identifiers are stand-in outputs", "one chain state per process: the clean reference node and the node under test are sequential incarnations", "blocks come from the harness author: chains of 3-30 (thorough 60) blocks over several epochs with tickets, preimages, disputes (also against pending reports), assurances, guarantees (current and previous rotation, dependencies between packages) and the accumulation of the reports that become available by real PVM runs of small generated service programs (fetch, write, checkpoint, assign, transfer, forget + solicit of one preimage that thereby runs through its whole life cycle, new - services born on chain -, yield)"},
 		LevelText:    "seeded exploration of admission and integration over block histories; evidence, not proof. PARTIAL: the historical-lookup function clause is a pure function that no on-chain path reaches; it is evaluated as a by-product on every stored preimage of every reached state (entries with 0, 1, 2 and 3 recorded slots) at the boundaries of the recorded slots and compared with the availability intervals the property states",
 		LevelNote:    "the lookup clause rides on the reached states: times are the recorded slots, one before and one after each, 0, the head slot and a far future slot; four-slot records and arbitrary times are not explored",
 		Technique:    "deterministic simulation of the node under seeded block histories with fault injection (invalid blocks rejected at chosen STF stages, retries, children of rejected blocks, forks, restarts from exported state), reference-node and reference-model oracles, tape shrinking + fresh-process replay",
@@ -298,10 +298,10 @@ var checks = []Check{
 		Quick:        tierCfg{budget: 150, maxRuns: 60, shrink: 100},
 		Thorough:     tierCfg{budget: 1200, shrink: 1000},
 		RunTimeoutS:  240,
-		Rule:         "one evaluation = one generated history: synthetic tiny genesis (6 trivial-seed validators, 1-3 services with storage / stored / solicited preimages, authorizer pools with duplicates), an author-built block tree (slot gaps across epoch boundaries, tickets, preimages, disputes with real Ed25519 votes, forks), for every accepted block the reference pool transition per core (prior pool minus the leftmost occurrence of each authorizer used by that core's guarantees, plus the queue entry selected by the slot, last O kept) is compared with the exported state",
+		Rule:         "one evaluation = one generated history: synthetic tiny genesis (6 trivial-seed validators - in two histories of three the staging / pending / active / previous sets hold them in different orders; 1-3 services whose identifiers come from a pool of special magnitudes and octet patterns, with storage (also entries whose state key has a chosen second octet), stored / solicited preimages incl. one blob solicited by several services; authorizer pools with duplicates, in half of the histories shared between the cores), an author-built block tree (slot gaps across epoch boundaries, tickets, preimages, disputes with real Ed25519 votes, forks), for every accepted block the reference pool transition per core (prior pool minus the leftmost occurrence of each authorizer used by that core's guarantees, plus the queue entry selected by the slot, last O kept) is compared with the exported state",
 		Real:         []string{"internal/fuzz.FuzzServiceStub SetState / ImportBlock / GetState", "internal/stf.RunSTF with every stage (safrole, disputes, assurances, reports, accumulation, history, preimages, authorizations, statistics)", "internal/blockchain.ChainState commit / restore / prune, stores on the in-memory provider, leaf cache", "state codec (StateEncoder / StateKeyValsToState) and block codec on every delivery"},
 		Stub:         []string{vrfStub, "block author = harness code (fallback and ticket seals through the stand-in, real Ed25519 for disputes); it is not an oracle", "multi-node = sequential incarnations of the process-wide chain-state singleton separated by SetState"},
-		Assumptions:  []string{"the VRF is a stand-in: nothing about Bandersnatch is decided and ticket identifiers are stand-in outputs", "one chain state per process: the clean reference node and the node under test are sequential incarnations", "blocks come from the harness author: chains of 3-30 (thorough 60) blocks over several epochs with tickets, preimages, disputes (also against pending reports), assurances, guarantees (current and previous rotation, dependencies between packages) and the accumulation of the reports that become available by real PVM runs of small generated service programs (write, checkpoint, assign, transfer, yield)"},
+		Assumptions:  []string{"the VRF is a stand-in: nothing about Bandersnatch is decided and ticket identifiers are stand-in outputs", "one chain state per process: the clean reference node and the node under test are sequential incarnations", "blocks come from the harness author: chains of 3-30 (thorough 60) blocks over several epochs with tickets, preimages, disputes (also against pending reports), assurances, guarantees (current and previous rotation, dependencies between packages) and the accumulation of the reports that become available by real PVM runs of small generated service programs (fetch, write, checkpoint, assign, transfer, forget + solicit of one preimage that thereby runs through its whole life cycle, new - services born on chain -, yield)"},
 		LevelText:    "seeded exploration over many slots with pools that contain duplicates, guarantees that use pool entries and services that replace a core's queue during accumulation; evidence, not proof",
 		LevelNote:    "",
 		Technique:    "deterministic simulation of the node under seeded block histories with fault injection (invalid blocks rejected at chosen STF stages, retries, children of rejected blocks, forks, restarts from exported state), reference-node and reference-model oracles, tape shrinking + fresh-process replay",
@@ -316,7 +316,7 @@ var checks = []Check{
 		Rule:         "one evaluation = one generated history (see C26) in which work reports are guaranteed, assured, become available and are accumulated; for every accepted block the reference selection (GP 12.4-12.12: dependency-free available reports, then the ready queue rotated to the block's slot plus the new reports with dependencies, edited by what is already accumulated, resolved repeatedly) and the reference updates of the accumulated history (12.31/12.32) and of the ready queue (12.33, incl. slot gaps) are compared with the exported state; the statement's invariants (nothing accumulated twice, the kept queue holds no accumulated report and no satisfied dependency) are checked directly; the order in which one service is given several reports is read from what its program stored",
 		Real:         []string{"internal/fuzz.FuzzServiceStub SetState / ImportBlock / GetState", "internal/stf.RunSTF with every stage (safrole, disputes, assurances, reports, accumulation, history, preimages, authorizations, statistics)", "internal/blockchain.ChainState commit / restore / prune, stores on the in-memory provider, leaf cache", "state codec (StateEncoder / StateKeyValsToState) and block codec on every delivery"},
 		Stub:         []string{vrfStub, "block author = harness code (fallback and ticket seals through the stand-in, real Ed25519 for disputes); it is not an oracle", "multi-node = sequential incarnations of the process-wide chain-state singleton separated by SetState"},
-		Assumptions:  []string{"the VRF is a stand-in: nothing about Bandersnatch is decided and ticket identifiers are stand-in outputs", "one chain state per process: the clean reference node and the node under test are sequential incarnations", "blocks come from the harness author: chains of 3-30 (thorough 60) blocks over several epochs with tickets, preimages, disputes (also against pending reports), assurances, guarantees (current and previous rotation, dependencies between packages) and the accumulation of the reports that become available by real PVM runs of small generated service programs (write, checkpoint, assign, transfer, yield)"},
+		Assumptions:  []string{"the VRF is a stand-in: nothing about Bandersnatch is decided and ticket identifiers are stand-in outputs", "one chain state per process: the clean reference node and the node under test are sequential incarnations", "blocks come from the harness author: chains of 3-30 (thorough 60) blocks over several epochs with tickets, preimages, disputes (also against pending reports), assurances, guarantees (current and previous rotation, dependencies between packages) and the accumulation of the reports that become available by real PVM runs of small generated service programs (fetch, write, checkpoint, assign, transfer, forget + solicit of one preimage that thereby runs through its whole life cycle, new - services born on chain -, yield)"},
 		LevelText:    "seeded exploration of multi-block histories of the ready queue and the accumulated history across slot gaps, epoch boundaries, forks, rejected blocks and restarts; evidence, not proof. PARTIAL: the exhaustive enumeration of all dependency graphs on <=4 reports named in the quantifier is bounded model checking of a pure function and is not done by this technique; graphs arise from the generated histories (<=2 cores, <=2 dependencies per report, chains through the recent history and the same extrinsic)",
 		LevelNote:    "",
 		Technique:    "deterministic simulation of the node under seeded block histories with fault injection (invalid blocks rejected at chosen STF stages, retries, children of rejected blocks, forks, restarts from exported state), reference-node and reference-model oracles, tape shrinking + fresh-process replay",
